@@ -675,3 +675,129 @@ def _register_families():
 
 
 _register_families()
+
+
+# ----------------------------------------------------------------------------
+# termination shifts: the block of FreeSurface.__init__ that turns the layer coordinates into the offered shifts (also the method Dislocation.__identify_shifts, C13)
+
+import ast as _ast
+from pyvc.extract import extract_range as _extract_range
+
+
+def sorting_network(vals):
+    """exact sort of a short list of symbolic reals by compare-exchange (min, max) steps"""
+    v = list(vals)
+    n = len(v)
+    for i in range(n):
+        for j in range(n - 1 - i):
+            lo, hi = snp.minimum(v[j], v[j + 1]), snp.maximum(v[j], v[j + 1])
+            v[j], v[j + 1] = lo, hi
+    return v
+
+
+class _LayerNP(object):
+    """the facade with np.unique and np.sort replaced by their contracts: unique returns the (already strictly increasing) layer coordinates it is given -- the caller supplies
+    strictly increasing symbolic coordinates, rounding at the tolerance is the identity on them (assumed) -- and sort is an exact sorting network"""
+    def __getattr__(self, k):
+        return getattr(snp, k)
+
+    def unique(self, a, return_index=False, **kw):
+        a = snp.asarray(a)
+        if return_index:
+            return a, _np.arange(len(a))
+        return a
+
+    def sort(self, a, **kw):
+        a = snp.asarray(a)
+        out = _np.empty(len(a), dtype=object)
+        for i, x in enumerate(sorting_network(list(a))):
+            out[i] = x
+        return snp.asarray(out)
+
+
+class _Coords(_np.ndarray):
+    pass
+
+
+def _shift_contract(E, tag, c, w, shifts_along_cut, path_appended):
+    """the offered shifts are exactly one per gap between adjacent layers (cyclically), each placing the cut (coordinate 0 modulo w) midway between the two layers"""
+    n = len(c)
+    layers = list(c) + ([c[0] + w] if path_appended else [])
+    gaps = len(layers) - 1
+    E.prove(tag + '.one_shift_per_gap', len(shifts_along_cut) == gaps)
+    half = realconst(Fraction(1, 2))
+    for k in range(gaps - 1):
+        E.prove(tag + '.sorted[%d]' % k, shifts_along_cut[k] <= shifts_along_cut[k + 1])
+    for i in range(gaps):
+        mid = (layers[i] + layers[i + 1]) * half
+        # some offered shift t puts this gap's midpoint on the cut: mid + t is a multiple of the cell width, with 0 <= t <= w
+        E.prove(tag + '.gap_has_its_shift[%d]' % i, Or(*[And(Or(mid + t == w, mid + t == 0, mid + t == 2 * w), t >= 0, t <= w) for t in shifts_along_cut]))
+    for k, t in enumerate(shifts_along_cut):
+        E.prove(tag + '.shift_belongs_to_a_gap[%d]' % k, Or(*[Or((layers[i] + layers[i + 1]) * half + t == w, (layers[i] + layers[i + 1]) * half + t == 0,
+                                                                 (layers[i] + layers[i + 1]) * half + t == 2 * w) for i in range(gaps)]))
+
+
+def _is_assign_to(name):
+    def sel(n):
+        return isinstance(n, _ast.Assign) and len(n.targets) == 1 and isinstance(n.targets[0], _ast.Name) and n.targets[0].id == name
+    return sel
+
+
+def _shifts_group(nlayers):
+    @group('shifts.block[layers=%d]' % nlayers, files=[FSF], functions=['FreeSurface.__init__ (block: layer coordinates -> offered shifts)'],
+           clause='the block of FreeSurface.__init__ that computes the offered shifts, executed for %d strictly increasing symbolic layer coordinates in a cell of symbolic width (both '
+                  'cases: top layer coincident with the periodic image of the bottom layer or not): exactly one shift per gap between adjacent layers (the gap across the periodic '
+                  'boundary included), sorted, each in [0, width] along the cut axis only, and each placing the cut exactly midway between its two layers -- hence strictly between '
+                  'atomic planes' % nlayers, replay=_replay, timeout_ms=30000)
+    def h_(E, L):
+        block, info = _extract_range(L, FSF, '__init__', _is_assign_to('rcellwidth'), _is_assign_to('shifts'))
+        E.prove('shifts.block_found[%d]' % nlayers, info['last_line'] - info['first_line'] >= 10 and 'rcell' in info['free_variables'])
+        mod = L.load(FSF)
+        for cutindex in range(3):
+            w = E.real('w')
+            E.assume(w > 1e-5)               # the cell is much wider than the rounding tolerance
+            c = E.reals('c', (nlayers,))
+            E.assume(c[0] >= 0)
+            for i in range(nlayers - 1):
+                E.assume(c[i + 1] > c[i] + 2e-7)              # distinct after rounding at the tolerance
+            E.assume(c[nlayers - 1] <= w + 1e-7)
+            if cutindex == 0:
+                E.canary('shifts.canary[%d]' % nlayers, c[0] == w)
+
+            class A(object):
+                pass
+            rcell = A()
+            rcell.box = A()
+            rcell.atoms = A()
+            vects = _np.zeros((3, 3), dtype=object)
+            vects[cutindex, cutindex] = w
+            rcell.box.vects = snp.asarray(vects)
+            pos = _np.zeros((nlayers, 3), dtype=object)
+            for i in range(nlayers):
+                pos[i, cutindex] = c[i]
+            rcell.atoms.pos = snp.asarray(pos)
+            ovect = _np.zeros(3)
+            ovect[cutindex] = 1.0
+            real_np = mod.np
+            mod.np = _LayerNP()
+            try:
+                out = block(dict(rcell=rcell, cutindex=cutindex, tol=1e-7, ovect=ovect))
+            finally:
+                mod.np = real_np
+            shifts = out['shifts']
+            appended = len(out['coords']) == nlayers + 1
+            tag = 'shifts[layers=%d,cut=%d,%s]' % (nlayers, cutindex, 'open' if appended else 'top_is_image_of_bottom')
+            E.prove(tag + '.shape', shifts.shape[1] == 3)
+            for k in range(shifts.shape[0]):
+                for j in range(3):
+                    if j != cutindex:
+                        E.prove(tag + '.along_cut_axis_only[%d,%d]' % (k, j), shifts[k, j] == 0)
+            E.prove(tag + '.width', out['rcellwidth'] == w)
+            if not appended:
+                E.prove(tag + '.top_coincides_with_image', And(c[nlayers - 1] - c[0] - w <= 1e-7, c[0] + w - c[nlayers - 1] <= 1e-7))
+            _shift_contract(E, tag, c, w, [shifts[k, cutindex] for k in range(shifts.shape[0])], appended)
+    return h_
+
+
+for _n in (2, 3, 4):
+    _shifts_group(_n)
